@@ -192,6 +192,17 @@ def _worker(args):
         for name, b in crafted_bec2(r, lambda off: body.to_binary(off, plan0.key)):
             for which in ("none", "private", "wrong", "public-only"):
                 do_bec2(hex_text(b), plan0, which, "crafted:" + name)
+        # well-formed containers (right key, valid CRC) around contents of unexpected length: only a key holder can make them
+        for kind, tag in (("update", 2), ("cust", 1)):
+            enc = plan0.decs[kind][0]
+            for ln in (0, 1, 9, 15, 16, 17, 18, 25, 26, 27, 40):
+                try:
+                    raw = enc.encrypt(bytes(r.randrange(256) for _ in range(ln)))
+                except Exception:                        # noqa: BLE001 -- e.g. customer-key slot beyond a short payload
+                    continue
+                h = BEC2_FILE_SIG + bytes([tag, len(raw)]) + raw + b"\x00\x00"
+                for which in ("private", "none"):
+                    do_bec2(hex_text(h + body.to_binary(len(h), plan0.key)), plan0, which, "crafted:valid-frame-%s-%d" % (kind, ln))
         for t, plan in bec2:
             for which in ("none", "private", "wrong", "public-only"):
                 do_bec2(t, plan, which, "valid")
@@ -241,6 +252,13 @@ def run(tier):
                                          os.path.join(wd, "mc%d%s" % (ml, sd)), workers=16, timeout=2400), "MC_Parsers")
             rep.add_mc("MC_Parsers: reader total over %s up to %d cells" % ("arbitrary continuations of every prefix of valid files" if sd == "TRUE" else "ALL cell strings", ml),
                        res, {"MaxLen": ml, "Seeded": sd, "alphabet": 9})
+        # the reader as an explicit step machine: refines the functional reader, terminates, variant decreases
+        for ml, sd in (((4, "FALSE"),) if tier == "quick" else ((5, "FALSE"), (2, "TRUE"))):
+            rcfg = ("SPECIFICATION Spec\n" + C3.sw_cfg() + "MaxLen = %d\nSeeded = %s\nINVARIANT Refines\nINVARIANT OutcomeClass\n"
+                    "PROPERTY Termination\nPROPERTY Variant\n" % (ml, sd))
+            res = tlc.require_ok(tlc.run(os.path.join(SPEC, "Bf3Reader.tla"), rcfg, os.path.join(wd, "rd%d%s" % (ml, sd)), workers=16, timeout=2400), "Bf3Reader")
+            rep.add_mc("Bf3Reader step machine (%s, <= %d cells): Refines the functional reader, Termination (liveness under weak fairness), Variant, OutcomeClass"
+                       % ("continuations of valid prefixes" if sd == "TRUE" else "all strings", ml), res, {"MaxLen": ml, "Seeded": sd})
         bad = tlc.run(os.path.join(SPEC, "MC_Parsers.tla"), "INIT Init\nNEXT Next\n" + C3.sw_cfg() + "MaxLen = 4\nSeeded = FALSE\nINVARIANT NothingAccepted\n",
                       os.path.join(wd, "st"), workers=4, timeout=300)
         if "NothingAccepted" not in bad.violated:
